@@ -6,9 +6,32 @@ import (
 	"github.com/vektah/gqlparser/v2/ast"
 )
 
+// mergeSameResponseKeys folds fields selected several times under one response key
+// ({ me { name } me { phone } }) into the first of them, as execution would.
+// Validation guarantees that such fields have the same name and arguments.
+func mergeSameResponseKeys(selectionSet ast.SelectionSet) ast.SelectionSet {
+	var result ast.SelectionSet
+	seen := make(map[string]*ast.Field)
+	for _, s := range selectionSet {
+		f, ok := s.(*ast.Field)
+		if !ok {
+			result = append(result, s)
+			continue
+		}
+		if first, ok := seen[f.Alias]; ok {
+			first.SelectionSet = append(first.SelectionSet, f.SelectionSet...)
+			continue
+		}
+		seen[f.Alias] = f
+		result = append(result, f)
+	}
+	return result
+}
+
 func sanitizeSelectionSet(ctx *PlanningContext, selectionSet ast.SelectionSet, insertionPoint []string) (ast.SelectionSet, ScrubFields) {
 	scrubFields := make(ScrubFields)
 	var result ast.SelectionSet
+	selectionSet = mergeSameResponseKeys(selectionSet)
 	for _, s := range selectionSet {
 		switch s := s.(type) {
 		case *ast.Field:
